@@ -241,6 +241,26 @@ def node_array_operations(inp):
                         if got.shape != want.shape or np.abs(got - want).max() > 1e-9:
                             bad.append({'operation': op, 'sites': n, 'other sites': m, 'left_index': li, 'direction': direction, 'copy': cp, 'ranks': [ra, rb],
                                         'deviation from the dense contraction': float(np.abs(got - want).max()) if got.shape == want.shape else 'shape'})
+    # every SVD of a zip-up carries the caller's truncation parameters (spy on tensornetwork.split_node_full_svd)
+    real = na.tn.split_node_full_svd
+    for n, m, li in ((3, 3, 0), (5, 5, 0), (6, 4, 1), (6, 6, 0)):
+        for direction in ('right', 'left'):
+            A, B = mk(n, 1, False, False), mk(m, 2, li == 0, li + m == n)
+            calls = []
+
+            def spy(*a, **k):
+                calls.append(k)
+                return real(*a, **k)
+            na.tn.split_node_full_svd = spy
+            try:
+                A.zip_up(B, axes=[(0, 0)], left_index=li, right_index=li + m - 1, direction=direction, max_singular_values=None,
+                         max_truncation_err=1e-3, relative=True)
+            finally:
+                na.tn.split_node_full_svd = real
+            wrong = [k for k in calls if k.get('max_truncation_err') != 1e-3 or k.get('relative') is not True or k.get('max_singular_values') is not None]
+            if wrong or len(calls) != m - 1:
+                bad.append({'operation': 'zip_up', 'sites': n, 'other sites': m, 'direction': direction, 'SVDs': len(calls), 'expected': m - 1,
+                            'an SVD was called with': {x: repr(wrong[0].get(x)) for x in ('max_singular_values', 'max_truncation_err', 'relative')} if wrong else None})
     for n in (1, 2, 3):
         for side in (True, False):
             for op in ('apply_vector',):
